@@ -172,6 +172,19 @@ def reader_view(store, dn):
     return out
 
 
+def xor_attack(ctx, case, data, truth):
+    """Given only what the read cap decrypts plus ONE known child write cap, no sibling's write cap may come out."""
+    if len(truth) < 2:
+        return
+    ctx.count("xor-attack:directories-with->=2-write-caps")
+    for (known, victim, got, why) in D.sibling_recovery(data, truth)[:1]:
+        ctx.oracle_fail("sibling-write-cap-recoverable-from-readcap-view",
+                        "holding the directory plaintext (read cap) and the write cap of child %r, the write cap of child %r is recovered: %s"
+                        % (known.decode("utf-8", "replace"), victim.decode("utf-8", "replace"), why),
+                        case=dict(case, known_child=known, known_write_cap=truth[known], victim_child=victim, directory_plaintext=data[:2000]),
+                        expected="a keystream of its own for every entry (salt = H(rw_uri))", observed=got or why)
+
+
 def tree_case(ctx, i, terms, info):
     r = ctx.rng("tree", i)
     tbl = D.CapTable()
@@ -187,6 +200,8 @@ def tree_case(ctx, i, terms, info):
     root_ro = nm2.create_from_cap(root.get_readonly_uri())
     seen_nodes = 0
     real_dirs = set(dn.get_readonly_uri() for (dn, kind, final) in t.dirs)
+    truth_by_dir = {dn.get_readonly_uri(): {name.encode("utf-8"): n.get_write_uri() for name, (n, md) in final.items() if n.get_write_uri()}
+                    for (dn, kind, final) in t.dirs}
     stack = [(root_ro, [])]
     visited_dirs = 0
     from allmydata.interfaces import IDirectoryNode
@@ -205,6 +220,7 @@ def tree_case(ctx, i, terms, info):
             if getattr(node._node, "get_writekey", lambda: None)() is not None:
                 ctx.oracle_fail("readonly-dirnode-has-writekey", "directory at %r reached read-only holds a writekey" % (path,), case=dict(case, path=path))
             strings += reader_view(store, node)
+            xor_attack(ctx, dict(case, path=path), dir_plaintext(store, node), truth_by_dir.get(node.get_readonly_uri(), {}))
             children = D.fire(node.list())
             for name, (child, md) in children.items():
                 strings.append(dumps_md(md))
@@ -330,7 +346,14 @@ def path_model(ctx, i, r, t, root, root_ro, store, tbl, terms, info, case):
             used.add(w)
             wk = dn._node.get_writekey()
             wkof.append("(%s, %s)" % (D.B(w), D.B(wk)))
-            for (name, rof, rwc, rw, md) in D.read_packed(data, wk):
+            try:
+                D.read_packed(data, wk)
+            except AssertionError as e:
+                ctx.oracle_fail("rwcap-field-is-not-salt-H(rwcap)-ciphertext-mac", "write-cap field of a packed entry: %s" % (e,),
+                                case=dict(case, directory=ro_uri, entries=[[x[0], x[2][:16], x[3]] for x in D.read_packed(data, wk, strict=False)][:8]),
+                                expected="salt = mutable_rwcap_salt_hash(rw_uri), then AES-CTR(H(salt, writekey), rw_uri), then HMAC",
+                                observed=str(e))
+            for (name, rof, rwc, rw, md) in D.read_packed(data, wk, strict=False):
                 key = D.rwcap_key(rwc[:16], wk)
                 if key not in seen_keys:
                     seen_keys.add(key)
@@ -412,6 +435,7 @@ def flat_case(ctx, i, terms, info):
                 ctx.oracle_fail("readonly-listing-child-differs", "child %r changes kind, read cap or metadata when read through the read cap" % (name,),
                                 case=case, expected=[o0, kids[name][1]], observed=[obs, md])
     store[dn._node.get_storage_index()] = packed
+    xor_attack(ctx, case, packed, {name.encode("utf-8"): kids[name][0].get_write_uri() for name in have_rw})
     view = reader_view(store, dnro)
     for sec in secrets:
         if any(sec in v for v in view):
